@@ -188,7 +188,14 @@ def run(ctx):
     ctx.check("D10-versioning-withdrawn-only-by-cancel", GTF, set(removers_) <= allowed_ and bool(allowed_), "self._versioned loses an id only in cancel_versioning", construct=str(sorted(set(removers_) - allowed_)), message=f"{sorted(set(removers_) - allowed_)} take an id out of self._versioned: when OTHER turns a file into a symlink (an add and a delete of one path, one transform id) the delete half cancels the add half — the new symlink is written but dropped from the index, no conflict is reported, and 'THIS equals BASE => the tree equals OTHER' fails for git trees")
     # ---- D11: what a merge_contents implementation answers is something _do_merge_contents knows --------------------------
     fdm = repo.func(MG, "Merge3Merger._do_merge_contents")
-    known = {c_.value for n_ in ast.walk(fdm) if isinstance(n_, ast.Compare) and norm(n_.left) == "hook_status" for c_ in n_.comparators if isinstance(c_, ast.Constant) and isinstance(c_.value, str)}
+    by_name = {}
+    for n_ in ast.walk(fdm):
+        if isinstance(n_, ast.Compare) and isinstance(n_.left, ast.Name):
+            for c_ in n_.comparators:
+                if isinstance(c_, ast.Constant) and isinstance(c_.value, str):
+                    by_name.setdefault(n_.left.id, set()).add(c_.value)
+    # the status variable, whatever it is called: the local compared with the most string constants
+    known = max(by_name.values(), key=len) if by_name else set()
     ctx.require(len(known) >= 4, f"{MG}:Merge3Merger._do_merge_contents: the hook_status dispatch was not found ({sorted(known)})")
     answered = {}
     for rel_ in [MG] + [r_ for r_ in repo.python_files() if r_.startswith("breezy/plugins/") and r_.endswith("_merge.py") and "/tests/" not in r_]:
